@@ -24,9 +24,10 @@ class Builder:
     overrides    : {"weapon_zero": {wid: hex radians}, "ammo_tm": {aid: hex float}} model state applied after
                    construction (solo oracle)."""
 
-    def __init__(self, world, shared=True, seam=True, overrides=None):
+    def __init__(self, world, shared=True, seam=True, overrides=None, calc_cfg=None):
         self.w = world
-        self.shared = shared
+        self.shared = shared          # alias {"ref": k} quantities to one instance
+        self.calc_cfg = calc_cfg      # solo oracle: {cid: fully explicit configuration} replaces the spec's subset
         self.seam = seam
         self.ov = overrides or {}
         self.cache = {}
@@ -136,6 +137,8 @@ class Builder:
     def calc(self, i):
         def make(s):
             cfg = s.get("config")
+            if self.calc_cfg is not None and str(i) in self.calc_cfg:
+                cfg = self.calc_cfg[str(i)]
             return lib.pb.Calculator(_config=dict(cfg)) if cfg is not None else lib.pb.Calculator()
         return self._get("calcs", i, make)
 
